@@ -1142,6 +1142,8 @@ def check_send_bounds(chk, w, roles):
                 else:
                     chk.violation("C01-BND", f.name, base[1], gep.loc(), "access to %s may be out of bounds: %s" % (base[1], detail))
     for (f, mc) in roles["append"]:
+        if getattr(mc, "op", "") == "store-append":
+            continue          # a copy loop: its subscripts were checked above like any other access to the buffer
         fa = E.analysis(f)
         n += 1
         dst = f.resolve(rules.strip_casts(f, mc.args[0]))
